@@ -15,20 +15,27 @@ LEVEL = "exploration"
 TECHNIQUE = ("runtime reference-model monitor: autograd gradients (first order with/without create_graph, second order) of random "
              "contractions of solve() vs the same contractions of a dense per-column torch.linalg.solve built from the same leaves; "
              "call-history spy on the solver entry points (method and options of every forward/backward solve)")
-LEVEL_TEXT = ("Held on every generated system of the run: 27 operator parametrisations (leaf and derived tensors, matrix-free with any "
-              "subset of products, Hermitian-flagged, low-rank, composed +,-,*,@,.H, shared leaves, Jacobian operator) x 7 forward "
-              "methods x 9 backward settings x {no E, E, E+M, M without E} x 12 broadcast patterns x {float64, complex128 with complex "
-              "E and complex Hermitian M}; every leaf gradient (B, E, leaves of A and M, unused parameters) is compared at first order "
-              "(backward not recorded and recorded) and second order. Bounds: n<=8 (quick) / 16 (thorough), cond(A - e M) <= 40.")
+LEVEL_TEXT = ("Held on every generated system of the run: 27 operator parametrisations (leaf and derived tensors, derivation outside or inside "
+              "the products, matrix-free with any subset of products, Hermitian-flagged, low-rank, composed +,-,*,@,.H, one leaf under two "
+              "names, a leaf shared by A and M, parameters in a list, Jacobian operator) x 7 forward methods x 9 backward settings x "
+              "{no E, E, E+M, M without E} x 12 broadcast patterns x {float64, complex128 with complex E, real-dtype E and complex "
+              "Hermitian M}; the gradient of every input (B, E, leaves of A and M, unused and frozen parameters) is compared at first "
+              "order (backward not recorded and recorded) and second order, and every backward solve must run the method and options "
+              "given in bck_options. Bounds: n<=8 (quick) / 16 (thorough), cond(A - e M) <= 40.")
 LEVEL_NOTE = ("Trusts torch.linalg.solve and torch autograd (double backward) on the dense reference; tolerances are "
-              "C * (loosest solver tolerance that actually ran, read from the solver spy) * cond^order; a forward or backward solve that "
-              "emitted a ConvergenceWarning is not compared.")
-RULE = ("cases drawn by seeded sampling: forward method x backward setting cycle systematically (54 combinations + plain exactsolve), "
-        "operator kind, M kind, emode {none,E,EM,MnoE}, batch pattern (A,B,E,M), dtype, spectrum, n, ncols, forward tolerance, special "
-        "right-hand side / cotangent are drawn per case; plus a directed group for gmres (operators with <= 3 distinct eigenvalues so "
-        "that gmres terminates) and a directed group 'spy' where the backward method is a recording callable. non-trivial = n >= 2, "
-        "non-zero cotangent, no ConvergenceWarning in any phase, first-order gradients compared for every leaf with at least one "
-        "non-zero reference gradient among the leaves of A")
+              "300 * (loosest solver tolerance that actually ran, read from the solver spy) * cond^order with floors 2e-8 / 2e-7 "
+              "(>= 200x the largest error seen on the unchanged tree); a forward or backward solve that emitted a ConvergenceWarning "
+              "is not compared (gmres is therefore mostly exercised on operators with <= 3 distinct eigenvalues).")
+RULE = ("group 'sys': seeded sampling; forward method x backward setting cycle systematically over {cg, bicgstab, custom_exactsolve, "
+        "broyden1, gmres, default} x {default, exactsolve, custom_exactsolve, cg, bicgstab, gmres, broyden1 (all tight), recording "
+        "callable, cg with default tolerance} plus plain exactsolve; operator kind of A (27) and of M (7), emode {none, E, EM, M without E}, "
+        "batch pattern of (A,B,E,M) out of 12, dtype, spectrum {spd, indefinite Hermitian, non-Hermitian}, n, ncols in 1..3, forward "
+        "tolerance {tight, default}, special {zero B, zero cotangent column, unused parameter listed in _getparamnames, an input of A/M or "
+        "B/E not requiring grad, real-dtype E in a complex system} are drawn per case; group 'gmres': gmres as forward and/or backward "
+        "method on diag(c)+UU^H operators (gmres terminates); group 'spy': a recording callable as backward method for every forward "
+        "method x emode. non-trivial = n >= 2, non-zero cotangent, no ConvergenceWarning in the forward and first-order backward passes, "
+        "first-order gradients (not recorded and recorded) compared for every input, and a non-zero reference gradient for at least one "
+        "leaf of A (or the zero-B shortcut case)")
 MIN_NONTRIVIAL = {"quick": 800, "thorough": 8000}
 ASSUMPTIONS = [
     "cond(A - e_c M) <= 40 for every column and batch element (E is re-drawn / shrunk otherwise); M is Hermitian positive definite with cond <= 5",
